@@ -328,7 +328,7 @@ impl Property for C15 {
             return Verdict::fail(c, d);
         }
         if let RefResult::Ok(m) = &model {
-            if let Some(src3) = wrap_in_ifs(t, &case.prog) {
+            if let Some(src3) = if crate::engine::gen_version() >= 2 { wrap_in_ifs(t, &case.prog) } else { None } {
                 ctx.label("if-wrapped-variant");
                 let out3 = sut::assemble_src(&src3, &Opts::default());
                 ctx.evals += 1;
